@@ -213,8 +213,15 @@ def q_case(case, overwrite, run):
         locs[c["list"]].append(str(l))
     morphs = [q_obj(a, o) for o in case["morphs"]]
     bios = [q_obj(a, o) for o in case["bios"]]
-    table = ["(%s, (%s, %s))" % (coq_str(f["href"]), coq_list([q_tmpl(o) for o in f["morphs"]]), coq_list([q_tmpl(o) for o in f["bios"]]))
-             for f in case["incs"] if not f.get("missing")]
+    def loaded(f, key):
+        # what read_neuroml2_file returns for the file: for the HDF5 forms the definitions travel in the embedded XML, which
+        # the loader merges with add_all_to_document - of several definitions with one id only the first arrives
+        os_ = f[key]
+        if f["href"].endswith((".h5", ".hdf5")):
+            os_ = [o for i, o in enumerate(os_) if o["id"] not in [x["id"] for x in os_[:i]]]
+        return coq_list([q_tmpl(o) for o in os_])
+
+    table = ["(%s, (%s, %s))" % (coq_str(f["href"]), loaded(f, "morphs"), loaded(f, "bios")) for f in case["incs"] if not f.get("missing")]
     doc = ("{| d_cells := %s; d_cells2 := %s; d_morphs := %s; d_bios := %s; d_incs := %s |}"
            % (coq_list(locs["cells"]), coq_list(locs["cells2"]), coq_list(morphs), coq_list(bios),
               coq_list([coq_str(f["href"]) for f in case["incs"]])))
@@ -364,8 +371,7 @@ def run(ck):
     cases = fixed_cases() + [g.case() for _ in range(ck.n(200, 2000))]
     for i, c in enumerate(cases):
         # also through NeuroMLXMLParser.parse (file -> include resolution -> fix), for the file forms an <include> may have there
-        c["via_parser"] = i < ck.n(80, 400) and all(f["href"].endswith(PARSER_FORMS) and not f["href"].endswith((".h5",)) or
-                                                    f["href"].endswith(".nml.h5") for f in c["incs"])
+        c["via_parser"] = i < ck.n(80, 400) and all(f["href"].endswith(PARSER_FORMS) for f in c["incs"])
     results = []
     for i in range(0, len(cases), 500):
         results += ck.impl("c17_impl.py", {"cases": cases[i:i + 500]}, timeout=1500)["results"]
